@@ -970,3 +970,21 @@ V("C27-reports-first-node","C27",RP+"process.go","""			task.quantity--
 		}
 	}
 }""",rule="C27.R1")
+
+# ---- C39
+PR="pkg/util/precision/"
+V("C39-multiply-when-decreasing","C39",PR+"converter.go","""	if decreasePrecision {
+		return new(big.Int).Div(n, factor)
+	}
+
+	return new(big.Int).Mul(n, factor)""","""	if !decreasePrecision {
+		return new(big.Int).Div(n, factor)
+	}
+
+	return new(big.Int).Mul(n, factor)""",rule="C39.R2")
+V("C39-tobase-wrong-direction","C39",PR+"converter.go","	return convert(n, c.factor, c.base < c.target)","	return convert(n, c.factor, c.base > c.target)",rule="C39.R2")
+V("C39-new-unchecked-narrowing","C39",PR+"converter.go","""func Convert(fromPrecision""","""func (c Fixed8Converter) ToBalancePrecisionU(n uint32) int64 {
+	return c.toTarget(new(big.Int).SetUint64(uint64(n))).Int64()
+}
+
+func Convert(fromPrecision""",rule="C39.R1")
